@@ -94,6 +94,50 @@ def reuse_case(res, ast, rng, n_comp):
     res.count("reuse_sequences")
     return None
 
+def run_derived(obj, steps):
+    """the calls made on a proposition DERIVED from obj by assume() before obj itself is asked: they must not reach obj"""
+    for st in steps:
+        der = obj.assume({k: dec_form(e) for k, e in st["assume"].items()})
+        for call in st["then"]:
+            arg = {k: dec_form(e) for k, e in call["arg"].items()}
+            try:
+                getattr(der, call["method"])(arg)
+            except Exception:
+                pass
+
+def derived_case(res, ast, rng, n_comp):
+    """d = m.assume(some leaves); calls on d that name sub-propositions of d with constants; then a partial evaluation of m:
+    m's answer has to be sound for m (a derived proposition is a value of its own)"""
+    m = build(ast)
+    obj = build(ast)
+    lv = leaves_of(m)
+    comps = [x for x in all_nodes(m) if not is_var(x) and x.id != m.id]
+    if not lv or not comps:
+        return None
+    steps = []
+    for _ in range(rng.randint(1, 2)):
+        l = rng.choice(lv)
+        v = rng.choice([int(l.bounds.lower), int(l.bounds.upper)])
+        names = rng.sample(comps, min(len(comps), rng.randint(1, 2)))
+        then = [{"method": rng.choice(["evaluate", "evaluate_propositions", "assume"]), "arg": {c.id: ["int", rng.choice([0, 1])] for c in names}}]
+        steps.append({"assume": {l.id: ["int", v]} if rng.random() < 0.8 else {}, "then": then})
+    run_derived(obj, steps)
+    d = rand_interp(m, rng, p_leaf=rng.choice([0.3, 0.6]), p_comp=0, point=0.8)
+    try:
+        got = {k: v.as_tuple() for k, v in obj.evaluate_propositions(dict(d)).items()}
+    except Exception as e:
+        got = None
+        bad = {"op": "evaluate_propositions", "model": ast_json(ast), "interpretation": {k: list(v) for k, v in d.items()}, "env": {}, "problem": f"evaluate_propositions raised {type(e).__name__}: {str(e)[:160]}"}
+    if got is not None:
+        bad = oracle_case(res, ast, d, rng, n_comp * 2, got=got)
+    if bad:
+        bad["derived_first"] = steps
+        bad["argument"] = {k: enc_form(v) for k, v in d.items()}
+        bad["problem"] += " (after calls on propositions derived from the same model object by assume())"
+        return bad
+    res.count("derived_object_histories")
+    return None
+
 def flags_case(res, x, cap=3000):
     """brute force over the children's box of one compound node"""
     rngs = [range(int(c.bounds.lower), int(c.bounds.upper) + 1) for c in x.propositions]
@@ -125,7 +169,7 @@ def run(res, tier, seed):
     n_models = 300 if tier == "quick" else 3500
     per = 2 if tier == "quick" else 3
     n_comp = 6 if tier == "quick" else 25
-    models = gen_valid(rng, n_models, res, constvar=0.08, big=0.15)
+    models = gen_valid(rng, n_models, res, constvar=0.08, big=0.15, wide=0.03)
     cases, fcases = [], []
     for ast, m in models:
         res.count("depth_%d" % depth_of(m))
@@ -152,6 +196,9 @@ def run(res, tier, seed):
             cases.append((lambda it, fresh=fresh, d=d, obs=obs: f"({dict_term(d, it)}, {dump(fresh, it)}, {dict_term(obs, it)}, ({z(obs[fresh.id][0])}, {z(obs[fresh.id][1])}))", (ast, d)))
             res.sample({"model": repr(m), "interpretation": {k: list(v) for k, v in d.items()}, "result": {k: list(v) for k, v in obs.items()}})
         bad = reuse_case(res, ast, rng, n_comp)
+        if bad:
+            res.violation("oracle", "evaluate_propositions returned bounds a completion contradicts: " + bad["problem"] + f" on {m!r}", bad)
+        bad = derived_case(res, ast, rng, n_comp)
         if bad:
             res.violation("oracle", "evaluate_propositions returned bounds a completion contradicts: " + bad["problem"] + f" on {m!r}", bad)
         for x in all_nodes(m):
@@ -209,6 +256,7 @@ def replay(payload):
     obj = build(ast)
     for f in r.get("prior_calls_on_same_object", []):
         obj.evaluate_propositions({k: dec_form(e) for k, e in f.items()})
+    run_derived(obj, r.get("derived_first", []))
     arg = {k: dec_form(e) for k, e in r["argument"].items()} if "argument" in r else dict(d)
     got = {k: v.as_tuple() for k, v in obj.evaluate_propositions(arg).items()}
     ref = {}
